@@ -243,7 +243,7 @@ func (e *c15Env) cacheOf(rid string) string {
 
 // c15Run injects hostile messages of every kind into running gateways.
 func c15Run(c *RunCtx) {
-	n := c.N(2400, 60000)
+	n := c.N(24000, 600000)
 	r := NewRng(c.Seed ^ 0xc15)
 	var e *c15Env
 	used := 0
